@@ -122,22 +122,7 @@ theorem rebuild_eq (cs : List (Name × ItemDef)) (es : List (Name × DTValue))
 whenever a definition is known to the specification it has an evaluator that is the identity
 on its conforming values. -/
 def Fits (kc : Name → Option (DTValue → Bool)) (k : Name → Option (DTValue → DTValue)) : Prop :=
-  ∀ n p, kc n = some p → p .null = false ∧ ∃ f, k n = some f ∧ ∀ v, p v = true → f v = v
-
-/-- Null conforms to no item definition. -/
-theorem conformsWith_null (kc : Name → Option (DTValue → Bool))
-    (h : ∀ n p, kc n = some p → p .null = false) (t : ItemDef) : conformsWith kc t .null = false := by
-  cases t with
-  | simple t av => simp [conformsWith, accepts_null]
-  | referenced n av =>
-    simp only [conformsWith]
-    cases hk : kc n with
-    | none => rfl
-    | some p => simp [h n p hk]
-  | component cs av => simp [conformsWith]
-  | collSimple t av => simp [conformsWith]
-  | collReferenced n av => simp [conformsWith]
-  | collComponent cs av => simp [conformsWith]
+  ∀ n p, kc n = some p → ∃ f, k n = some f ∧ ∀ v, p v = true → f v = v
 
 theorem itemLoop_id (g : List (Name × DTValue) → Option (List (Name × DTValue)))
     (c : List (Name × DTValue) → Bool) (hg : ∀ es, c es = true → g es = some es) :
@@ -164,13 +149,18 @@ theorem checkWith_id (kc : Name → Option (DTValue → Bool)) (k : Name → Opt
     simp [checkWith, h.1, checkAllowed_ok v av h.2]
   | .referenced n av, v, h => by
     simp only [conformsWith] at h
-    cases hk : kc n with
-    | none => rw [hk] at h; simp at h
-    | some p =>
-      rw [hk] at h
-      simp only [Bool.and_eq_true] at h
-      obtain ⟨_, f, hf, hid⟩ := H n p hk
-      simp [checkWith, hf, hid v h.1, checkAllowed_ok v av h.2]
+    by_cases ha : isAny n = true
+    · rw [if_pos ha] at h
+      simp only [checkWith, if_pos ha]
+      exact checkAllowed_ok v av h
+    · rw [if_neg ha] at h
+      cases hk : kc (trim n) with
+      | none => rw [hk] at h; simp at h
+      | some p =>
+        rw [hk] at h
+        simp only [Bool.and_eq_true] at h
+        obtain ⟨f, hf, hid⟩ := H (trim n) p hk
+        simp [checkWith, ha, hf, hid v h.1, checkAllowed_ok v av h.2]
   | .component cs av, v, h => by
     cases v with
     | ctx es =>
@@ -205,27 +195,29 @@ theorem checkWith_id (kc : Name → Option (DTValue → Bool)) (k : Name → Opt
     cases v with
     | list xs =>
       simp only [conformsWith] at h
-      cases hk : kc n with
-      | none => rw [hk] at h; simp at h
-      | some p =>
-        rw [hk] at h
-        simp only [Bool.and_eq_true, List.all_eq_true] at h
-        obtain ⟨hnull, f, hf, hid⟩ := H n p hk
-        have hmap : xs.map f = xs := by
-          conv => rhs; rw [← List.map_id xs]
-          apply List.map_congr_left
-          intro x hx
-          exact hid x (h.1 x hx)
-        have hnn : (xs.any fun x => decide (x = DTValue.null)) = false := by
-          rw [List.any_eq_false]
-          intro x hx hxn
-          simp only [decide_eq_true_eq] at hxn
-          subst hxn
-          have := h.1 _ hx
-          rw [hnull] at this
-          exact absurd this (by simp)
-        simp only [checkWith, hf, refLoop_eq, hmap, hnn]
-        exact checkAllowed_ok _ av h.2
+      by_cases ha : isAny n = true
+      · rw [if_pos ha] at h
+        simp only [checkWith, if_pos ha]
+        exact checkAllowed_ok _ av h
+      · rw [if_neg ha] at h
+        cases hk : kc (trim n) with
+        | none => rw [hk] at h; simp at h
+        | some p =>
+          rw [hk] at h
+          simp only [Bool.and_eq_true, List.all_eq_true, bne_iff_ne, ne_eq] at h
+          obtain ⟨f, hf, hid⟩ := H (trim n) p hk
+          have hmap : xs.map f = xs := by
+            conv => rhs; rw [← List.map_id xs]
+            apply List.map_congr_left
+            intro x hx
+            exact hid x (h.1 x hx).1
+          have hnn : (xs.any fun x => decide (x = DTValue.null)) = false := by
+            rw [List.any_eq_false]
+            intro x hx hxn
+            simp only [decide_eq_true_eq] at hxn
+            exact (h.1 x hx).2 hxn
+          simp only [checkWith, if_neg ha, hf, refLoop_eq, hmap, hnn]
+          exact checkAllowed_ok _ av h.2
     | null => simp [conformsWith] at h
     | bool b => simp [conformsWith] at h
     | num n => simp [conformsWith] at h
@@ -280,7 +272,7 @@ theorem fits_fuel (defs : Defs) : ∀ fuel, Fits (conformsName defs fuel) (evalu
     intro n p hp
     simp only [conformsName, Option.some.injEq] at hp
     subst hp
-    exact ⟨rfl, _, rfl, by simp⟩
+    exact ⟨_, rfl, by simp⟩
   | succ f ih =>
     intro n p hp
     simp only [conformsName] at hp
@@ -290,8 +282,7 @@ theorem fits_fuel (defs : Defs) : ∀ fuel, Fits (conformsName defs fuel) (evalu
       rw [hl] at hp
       simp only [Option.some.injEq] at hp
       subst hp
-      refine ⟨conformsWith_null _ (fun n p h => (ih n p h).1) t,
-        checkWith (evaluator defs f) t, by simp [evaluator, hl], ?_⟩
+      refine ⟨checkWith (evaluator defs f) t, by simp [evaluator, hl], ?_⟩
       intro v hv
       exact checkWith_id _ _ ih t v hv
 
@@ -387,9 +378,12 @@ theorem checkWith_null (k : Name → Option (DTValue → DTValue))
   | simple t av => simp [checkWith, accepts_null]
   | referenced n av =>
     simp only [checkWith]
-    cases hk : k n with
-    | none => rfl
-    | some f => simp [h n f hk, checkAllowed_null]
+    by_cases ha : isAny n = true
+    · simp [ha, checkAllowed_null]
+    · rw [if_neg ha]
+      cases hk : k (trim n) with
+      | none => rfl
+      | some f => simp [h (trim n) f hk, checkAllowed_null]
   | component cs av => simp [checkWith]
   | collSimple t av => simp [checkWith]
   | collReferenced n av => simp [checkWith]
@@ -465,13 +459,19 @@ theorem checkWith_idem (k : Name → Option (DTValue → DTValue)) (H : Idem k) 
     · rw [if_neg ha, e, accepts_null]; simp
   | .referenced n av, _, v => by
     simp only [checkWith]
-    cases hk : k n with
-    | none => simp [hk]
-    | some f =>
-      simp only
-      rcases checkAllowed_cases (f v) av with ⟨h1, _⟩ | ⟨h1, _⟩
-      · rw [h1, (H n f hk).2 v, h1]
-      · rw [h1, (H n f hk).1, checkAllowed_null]
+    by_cases ha : isAny n = true
+    · simp only [if_pos ha]
+      rcases checkAllowed_cases v av with ⟨h1, _⟩ | ⟨h1, _⟩
+      · rw [h1, h1]
+      · rw [h1, checkAllowed_null]
+    · simp only [if_neg ha]
+      cases hk : k (trim n) with
+      | none => simp
+      | some f =>
+        simp only
+        rcases checkAllowed_cases (f v) av with ⟨h1, _⟩ | ⟨h1, _⟩
+        · rw [h1, (H (trim n) f hk).2 v, h1]
+        · rw [h1, (H (trim n) f hk).1, checkAllowed_null]
   | .component cs av, wf, v => by
     simp only [WF] at wf
     cases v with
@@ -513,26 +513,32 @@ theorem checkWith_idem (k : Name → Option (DTValue → DTValue)) (H : Idem k) 
     cases v with
     | list xs =>
       simp only [checkWith]
-      cases hk : k n with
-      | none => simp
-      | some f =>
-        simp only [refLoop_eq]
-        by_cases hany : ((xs.map f).any fun x => decide (x = DTValue.null)) = true
-        · simp [hany]
-        · have hany' : ((xs.map f).any fun x => decide (x = DTValue.null)) = false := by simpa using hany
-          simp only [hany', Bool.false_eq_true, if_false]
-          rcases checkAllowed_cases (.list (xs.map f)) av with ⟨h1, _⟩ | ⟨h1, _⟩
-          · rw [h1]
-            simp only [hk, refLoop_eq]
-            have : (xs.map f).map f = xs.map f := by
-              rw [List.map_map]
-              apply List.map_congr_left
-              intro x _
-              exact (H n f hk).2 x
-            rw [this]
+      by_cases ha : isAny n = true
+      · simp only [if_pos ha]
+        rcases checkAllowed_cases (.list xs) av with ⟨h1, _⟩ | ⟨h1, _⟩
+        · rw [h1]; simp only [if_pos ha]; exact h1
+        · rw [h1]
+      · simp only [if_neg ha]
+        cases hk : k (trim n) with
+        | none => simp
+        | some f =>
+          simp only [refLoop_eq]
+          by_cases hany : ((xs.map f).any fun x => decide (x = DTValue.null)) = true
+          · simp [hany]
+          · have hany' : ((xs.map f).any fun x => decide (x = DTValue.null)) = false := by simpa using hany
             simp only [hany', Bool.false_eq_true, if_false]
-            exact h1
-          · rw [h1]
+            rcases checkAllowed_cases (.list (xs.map f)) av with ⟨h1, _⟩ | ⟨h1, _⟩
+            · rw [h1]
+              simp only [if_neg ha, hk, refLoop_eq]
+              have : (xs.map f).map f = xs.map f := by
+                rw [List.map_map]
+                apply List.map_congr_left
+                intro x _
+                exact (H (trim n) f hk).2 x
+              rw [this]
+              simp only [hany', Bool.false_eq_true, if_false]
+              exact h1
+            · rw [h1]
     | null => simp [checkWith]
     | bool b => simp [checkWith]
     | num n => simp [checkWith]
@@ -687,6 +693,11 @@ theorem keepAllowed_list (xs : List DTValue) (av : Allowed) :
     keepAllowed (.list xs) av = checkAllowed (.list xs) av := by
   simp [keepAllowed, checkAllowed_eq]
 
+theorem keepAllowed_eq (v : DTValue) (av : Allowed) : keepAllowed v av = checkAllowed v av := by
+  by_cases hn : v = .null
+  · subst hn; simp [keepAllowed, checkAllowed_null]
+  · simp [keepAllowed, hn, checkAllowed_eq]
+
 theorem itemLoop_eq_projectItems (g g' : List (Name × DTValue) → Option (List (Name × DTValue)))
     (h : ∀ es, g es = g' es) : ∀ xs, itemLoop g xs = projectItems g' xs
   | [] => rfl
@@ -701,12 +712,12 @@ theorem checkWith_eq_project (k kp : Name → Option (DTValue → DTValue)) (H :
     by_cases ha : t.accepts v = true <;> by_cases ho : okAllowed v av = true <;> simp [ha, ho]
   | .referenced n av, v => by
     simp only [checkWith, projectWith]
-    rcases H n with ⟨h1, h2⟩ | ⟨f, g, h1, h2, h3⟩
-    · simp [h1, h2]
-    · simp only [h1, h2, h3 v, keepAllowed]
-      by_cases hn : g v = .null
-      · simp [hn, checkAllowed_null]
-      · simp [hn, checkAllowed_eq]
+    by_cases ha : isAny n = true
+    · simp only [if_pos ha, keepAllowed_eq]
+    · simp only [if_neg ha]
+      rcases H (trim n) with ⟨h1, h2⟩ | ⟨f, g, h1, h2, h3⟩
+      · simp [h1, h2]
+      · simp only [h1, h2, h3 v, keepAllowed_eq]
   | .component cs av, v => by
     cases v with
     | ctx es =>
@@ -735,13 +746,16 @@ theorem checkWith_eq_project (k kp : Name → Option (DTValue → DTValue)) (H :
     cases v with
     | list xs =>
       simp only [checkWith, projectWith]
-      rcases H n with ⟨h1, h2⟩ | ⟨f, g, h1, h2, h3⟩
-      · simp [h1, h2]
-      · have hm : xs.map f = xs.map g := List.map_congr_left (fun x _ => h3 x)
-        simp only [h1, h2, refLoop_eq, hm]
-        by_cases hany : ((xs.map g).any fun x => decide (x = DTValue.null)) = true
-        · simp [hany]
-        · simp [hany, keepAllowed_list]
+      by_cases ha : isAny n = true
+      · simp only [if_pos ha, keepAllowed_eq]
+      · simp only [if_neg ha]
+        rcases H (trim n) with ⟨h1, h2⟩ | ⟨f, g, h1, h2, h3⟩
+        · simp [h1, h2]
+        · have hm : xs.map f = xs.map g := List.map_congr_left (fun x _ => h3 x)
+          simp only [h1, h2, refLoop_eq, hm]
+          by_cases hany : ((xs.map g).any fun x => decide (x = DTValue.null)) = true
+          · simp [hany]
+          · simp [hany, keepAllowed_list]
     | null => simp [checkWith, projectWith]
     | bool b => simp [checkWith, projectWith]
     | num n => simp [checkWith, projectWith]
